@@ -16,9 +16,35 @@ import numpy as np
 # --------------------------------------------------------------------------
 
 
+_ENTROPY = {"key": 0, "n": 0, "drawn": 0}
+_ORIG_DEFAULT_RNG = np.random.default_rng
+
+
+def _seeded_default_rng(seed=None):
+    """OS-entropy seam: `numpy.random.default_rng(None)` (what virocon's rejection
+    sampler calls when no random_state is given) would read fresh OS entropy, which
+    no seed controls.  Inside the simulator it is a function of the last pin of the
+    global RNG and a counter, so an unseeded operation depends on simulator-owned
+    state only.  Calls with an explicit seed / Generator are passed through."""
+    if seed is None:
+        import hashlib
+
+        _ENTROPY["n"] += 1
+        _ENTROPY["drawn"] += 1
+        h = hashlib.sha256(f"{_ENTROPY['key']}/{_ENTROPY['n']}".encode()).digest()
+        return _ORIG_DEFAULT_RNG(int.from_bytes(h[:8], "big"))
+    return _ORIG_DEFAULT_RNG(seed)
+
+
+np.random.default_rng = _seeded_default_rng
+
+
 def pin_global(k):
-    """Re-seed NumPy's global legacy RNG (the 'clock everybody reads')."""
+    """Re-seed NumPy's global legacy RNG (the 'clock everybody reads') and the
+    OS-entropy seam."""
     np.random.seed(int(k) % (2**32))
+    _ENTROPY["key"] = int(k)
+    _ENTROPY["n"] = 0
 
 
 @contextlib.contextmanager
